@@ -1,0 +1,12 @@
+//go:build verif
+
+// Contracts (machine-checked by /verif/engine, see /verif/DESIGN.md). Comment-only file.
+package errs
+
+// The error constructors never return nil: a caller that rejects input by returning one of these does return an error.
+//@ func NewSilentErr
+//@   props C02 C05
+//@   ensures [never-nil] result != nil
+//@ func WrapSilent
+//@   props C02 C05
+//@   ensures [never-nil] result != nil
